@@ -19,7 +19,12 @@ THEOREMS = ['Tbox.C04.C04_every_subscriber_once', 'Tbox.C04.C04_chain_old_handle
             # round 4: step-level model of the critical sections (every interleaving of threads, deliveries, user sigaction)
             'Tbox.C04.Conc.C04_cs_reachable_inv', 'Tbox.C04.Conc.C04_cs_mutex', 'Tbox.C04.Conc.C04_cs_bookkeeping',
             'Tbox.C04.Conc.C04_cs_mask_discipline', 'Tbox.C04.Conc.C04_cs_deliveries_find_ctx',
-            'Tbox.C04.Conc.C04_cs_handler_on_other_thread_counterexample', 'Tbox.C04.Conc.step_inv']
+            'Tbox.C04.Conc.C04_cs_handler_on_other_thread_counterexample', 'Tbox.C04.Conc.step_inv',
+            # round 5: SA_RESETHAND & co. on the saved disposition, whole flag word + 64-bit mask, consumed first page, state-derived histories
+            'Tbox.C04.C04_chained_delivery_never_resets', 'Tbox.C04.C04_direct_delivery_resethand', 'Tbox.C04.C04_resethand_chain_counterexample',
+            'Tbox.C04.C04_chain_env_counterexample', 'Tbox.C04.C04_mask_kernel', 'Tbox.C04.C04_head_page_capacity',
+            'Tbox.C04.C04_consumed_head_counterexample', 'Tbox.C04.C04_sibling_keeps_subscription', 'Tbox.C04.C04_state_derived_histories',
+            'Tbox.C04.baseDisp_step']
 LIBS = ['-ldl']
 SOURCES = vlib.EVENT_SOURCES + vlib.BASE_SOURCES
 FLAVOUR = 'asan'
@@ -37,7 +42,12 @@ TRUSTED = ['model lean/TboxModel/C04/Model.lean hand-written from common_loop_si
            'the handler\'s write() per loop and the reads of onSignal take injected kernel answers (EAGAIN/EINTR/EIO/EPIPE, short reads)',
            'kernel semantics assumed: a 4-byte write to a pipe is atomic (all or EAGAIN), pipe capacity = F_GETPIPE_SZ/4 numbers when written from empty, '
            'sigprocmask acts on the calling thread only',
-           'each case runs in a forked child of the harness: the bookkeeping under test is process-wide']
+           'each case runs in a forked child of the harness: the bookkeeping under test is process-wide',
+           'round 5, kernel semantics assumed and checked on every run through the sentinel handlers / sigaction read-back: SA_RESETHAND resets the '
+           'HANDLER only (Linux keeps flags and mask) and only when the kernel itself runs that handler; the kernel clears SIGKILL/SIGSTOP from '
+           'sa_mask; a handler sees its own signal blocked unless SA_NODEFER plus sa_mask of the INSTALLED disposition and runs on the alternate '
+           'stack iff SA_ONSTACK of the installed disposition (`M env=`); a pipe is a ring of pages, a page is reusable once wholly read '
+           '(capacity with h numbers of the first page consumed = F_GETPIPE_SZ/4 - h)']
 ASSUMPTIONS = ['signals SIGKILL, SIGUSR1, SIGUSR2, SIGSTOP, SIGRTMIN+1, SIGRTMIN+2, SIGRTMAX (ids 0..6) and the invalid numbers 65, INT_MAX, 0, -3, 32 (ids 7..11)',
                'all three initialize() overloads are exercised; the int / initializer_list overloads ADD to the set of the event (observed, outside the statement)',
                'the user does not call sigaction() on a signal while tbox\'s handler is installed for it, and never combines SIG_IGN with SA_SIGINFO',
@@ -45,14 +55,25 @@ ASSUMPTIONS = ['signals SIGKILL, SIGUSR1, SIGUSR2, SIGSTOP, SIGRTMIN+1, SIGRTMIN
                'C04_burst_no_loss_partial has the decidable hypothesis n <= capacity, C04_burst_overflow_counterexample shows the loss (both replayed)',
                'signals are raised one at a time, not concurrently with a subscription change (Conc.lean: a delivery on another thread inside a critical section is possible)',
                'a callback may change events of any loop (the other loops\' threads are parked: hand-shaken) but does not delete the event it belongs to',
-               'loops are not destroyed while events are subscribed and events do not outlive their loop (API contract of every event type; outside the statement)',
+               'loops are not destroyed while events are subscribed and events do not outlive their loop (API contract of every event type; outside the statement; '
+               'round 5 re-examined: ~CommonLoop does not touch the signal bookkeeping - the handler stays installed, the ctx entry keeps the dead loop\'s write fd, both '
+               'pipe ends leak - but the orphaned events still report isEnabled() and their loop pointer dangles, so "no enabled event remains" is not the case and any '
+               'later disable()/delete of them is a use-after-free whatever the destructor does; the `lost l` op pins the observed behaviour down as M lines)',
+               'SA_RESETHAND on the disposition saved at the first subscription: tbox chains that handler on EVERY delivery (the statement: "still invoked") and restores the '
+               'saved sigaction whole; the kernel alone would have reset it after the first delivery (C04_resethand_chain_counterexample); its SA_NODEFER / sa_mask / '
+               'SA_ONSTACK / SA_RESTART are not in force while tbox\'s handler (SA_SIGINFO, empty mask) is installed (C04_chain_env_counterexample; outside the statement)',
+               'C04_disposition_restored: besides the application\'s own sigaction calls only the kernel\'s SA_RESETHAND reset on a DIRECT delivery changes a disposition '
+               '(hypothesis kresets = 0: no such delivery in between; never one while somebody is subscribed)',
                'C04_every_subscriber_once (exactly once) assumes the callbacks of the subscribers of that signal do not change subscriptions; '
                'with such callbacks C04_no_callback_on_disabled_or_destroyed / C04_callbacks_legit say who may be called']
 RULE = ('op sequences (new/init/enable/disable/delete of signal events on 1-3 loops each owned by its own thread, callback scripts that '
         'enable/disable/delete sibling events, re-initialisation of enabled events, signal sets containing SIGKILL/SIGSTOP, user sigaction, real raise(), '
         'single loop passes, both engines; round 4: bursts of deliveries without a pass around the capacity of a one-page / default pipe, injected '
         'errors of the handler\'s write() per loop, short / failing read() in onSignal, callbacks acting on events of other loops, signal numbers '
-        '0 / negative / 32 / 64 / 65 / INT_MAX, the accumulating initialize() overloads) from props/C04/plugin.py; non-trivial = the model run restores at least one saved disposition AND some '
+        '0 / negative / 32 / 64 / 65 / INT_MAX, the accumulating initialize() overloads; round 5: user dispositions with every sa_flags bit incl. SA_RESETHAND (sign bit) and '
+        '64-bit masks around 2^31/2^32/2^63 chained and restored, direct deliveries with kernel reset, partial reads of a full one-page pipe then deliveries '
+        '(consumed first page), state-derived follow-ups on one event: enable twice / same set re-initialised while enabled / duplicate signal in one list / '
+        'sibling of the same loop and signal leaves / enable-disable-enable inside its own callback, a loop destroyed with subscribers) from props/C04/plugin.py; non-trivial = the model run restores at least one saved disposition AND some '
         'pass delivers at least one callback (driver tags restore + pass-cb1/pass-cbN); distinct = distinct op text')
 
 INVALID = [0, 3, 7, 8, 9, 10, 11]
@@ -76,9 +97,105 @@ def sigset(rng, pool, bad=0.0):
     return sigs_text(s)
 
 
-def rand_sa(rng, g):
+# sa_mask values around the widths: bits 30/31/32 (2^31, 2^32), 62/63 (2^63), SIGKILL (bit 8) / SIGSTOP (bit 18) which the kernel
+# clears, everything, the loop signals themselves (SIGUSR1 = bit 9, SIGUSR2 = bit 11, SIGRTMIN+1 = bit 34)
+WIDE_MASKS = [1 << 30, 1 << 31, 1 << 32, (1 << 31) - 1, (1 << 32) - 1, (1 << 32) + 1, 1 << 62, 1 << 63, (1 << 63) - 1, (1 << 63) + 5,
+              (1 << 64) - 1, 1 << 8, 1 << 18, (1 << 8) | (1 << 18) | 5, (1 << 9) | (1 << 11), 1 << 34, 0x8000000080000000]
+
+
+def rand_sa(rng, g, wide=0.35):
     k = rng.choice(['d', 'i', 'h0', 'h1', 'h2', 'a0', 'a1', 'a2', 'h0', 'a1'])
+    if rng.random() < wide:      # round 5: every flag bit (4 = SA_RESETHAND, the sign bit of sa_flags), the whole 64-bit mask
+        return 'sa %d %s %d %d' % (g, k, rng.choice([4, 5, 6, 8, 12, 16, 32, 46, 63, rng.randrange(64)]), rng.choice(WIDE_MASKS))
     return 'sa %d %s %d %d' % (g, k, rng.randrange(4), rng.choice([0, 0, 1, 5, 10, 15]))
+
+
+def gen_flags(rng):
+    """round 5: a user disposition with SA_RESETHAND / SA_NODEFER / SA_ONSTACK / SA_RESTART / SA_NOCLD* and a wide mask is saved, chained
+    by several deliveries (the kernel alone would reset it after the first), restored whole; direct deliveries before / after
+    (kernel reset: handler only); a second subscription round saves the reset disposition"""
+    ops = ['eng ' + rng.choice('es')]
+    g = rng.choice([1, 2, 4, 6])
+    fl = rng.choice([4, 4, 5, 6, 12, 14, 36, 46, 63, 8, 2, 16])
+    ops.append('sa %d %s %d %d' % (g, rng.choice(['h0', 'h1', 'a2', 'a0']), fl, rng.choice(WIDE_MASKS + [0, 5])))
+    if rng.random() < 0.25:
+        ops.append('raise %d' % g)      # direct delivery first: reset before anybody subscribes
+        if rng.random() < 0.5:
+            ops.append('sa %d %s %d %d' % (g, rng.choice(['h1', 'a1']), fl, rng.choice(WIDE_MASKS)))
+    nl = rng.choice([1, 2, 3])
+    n = 0
+    for l in range(nl):
+        for _ in range(rng.choice([1, 1, 2])):
+            ops += ['new %d -' % l, 'init %d %d %s' % (n, g, rng.choice('oppp')), 'en %d' % n]
+            n += 1
+            if rng.random() < 0.5:
+                ops.append('raise %d' % g)
+    for _ in range(rng.choice([1, 2, 4])):
+        ops += ['raise %d' % g] * rng.choice([1, 2, 3])
+        for l in range(nl):
+            if rng.random() < 0.7: ops.append('pass %d' % l)
+        if rng.random() < 0.3: ops.append('sa %d h0 0 0' % g)      # refused while installed
+    order = list(range(n)); rng.shuffle(order)
+    for e in order:
+        ops.append(rng.choice(['dis %d', 'del %d', 'init %d - p']) % e)
+    ops += ['raise %d' % g, 'raise %d' % g]      # direct: runs once, reset (if SA_RESETHAND), then "killed"
+    if rng.random() < 0.5:
+        ops += ['new 0 -', 'init %d %d p' % (n, g), 'en %d' % n, 'raise %d' % g, 'pass 0', 'dis %d' % n, 'raise %d' % g]
+    return ops
+
+
+def gen_state_derived(rng):
+    """round 5, lesson (g): follow-up calls equal to / derived from the state one object caches: enable twice then disable once; the same
+    signal through two events of one loop, one leaves; initialize() with the SAME set (and mode) while enabled; the same signal twice
+    in one initializer list / added again by the accumulating overloads; enable-disable-enable inside the callback of that very signal"""
+    ops = ['eng ' + rng.choice('es'), rand_sa(rng, 1).replace(' d ', ' h0 ').replace(' i ', ' a2 '), 'sa 2 h1 1 4294967296']
+    mode = rng.choice('op')
+    sg = rng.choice(['1', '1', '1,2', '2'])
+    sc0 = rng.choice(['-', '-', 'e0,d0,e0', 'd0,e0', 'e0', 'd0,e0,d0', 'i0:%s:%s,e0' % (sg.replace(',', '.'), mode), 'i0:%s:%s' % (sg.replace(',', '.'), mode), 'e0,e0', 'e1,d1,e1', 'd1'])
+    ops += ['new 0 ' + sc0, 'new 0 ' + rng.choice(['-', '-', 'd0', 'e0', 'd1,e1']), 'new %d -' % rng.choice([0, 1])]
+    ops += ['init 0 %s %s' % (sg, mode), 'init 1 %s %s' % (sg, rng.choice('pp' + mode)), 'init 2 1 p']
+    first = int(sg.split(',')[0])
+    fam = [
+        ['en 0', 'en 0', 'dis 0'],                                        # subscribe twice, unsubscribe once
+        ['en 0', 'en 1', 'dis 0'], ['en 0', 'en 1', 'del 0'], ['en 1', 'en 0', 'dis 1'],      # sibling leaves
+        ['en 0', 'init 0 %s %s' % (sg, mode)], ['en 0', 'init 0 %s %s' % (sg, mode), 'en 0'],  # same set, same mode, while enabled
+        ['en 0', 'init1 0 %d %s' % (first, mode), 'en 0'], ['en 0', 'initd 0 %d %s' % (first, mode), 'en 0'],
+        ['initd 0 %d %s' % (first, mode), 'en 0'], ['initl 0 %s %s' % (sg, mode), 'en 0', 'initl 0 %s %s' % (sg, mode), 'en 0'],
+        ['en 0', 'en 1', 'en 2', 'dis 1', 'en 1', 'dis 0'],
+        ['en 0', 'dis 0', 'en 0'], ['en 0', 'en 0', 'dis 0', 'dis 0', 'en 0'],
+    ]
+    probe = ['raise 1', 'raise 2', 'pass 0', 'pass 1']
+    for _ in range(rng.choice([2, 3, 5])):
+        ops += rng.choice(fam) + probe
+        if rng.random() < 0.4: ops += ['raise %d' % first] * 2 + ['pass 0']
+    ops += ['dis 0', 'dis 1', 'dis 2'] + probe
+    return ops
+
+
+def gen_head(rng, tier):
+    """round 5: the consumed part of the pipe's first page: fill (or nearly fill) a one-page pipe, read a few numbers and stop the loop with a
+    read error, deliver again: only capacity - consumed fit until the page is wholly read"""
+    ops = ['eng ' + rng.choice('es'), 'cap s', rng.choice(['sa 1 h0 0 0', 'sa 1 a1 4 2147483648', 'sa 1 i 0 0'])]
+    nl = rng.choice([1, 2])
+    for l in range(nl):
+        ops += ['new %d -' % l, 'init %d 1 p' % l, 'en %d' % l]
+    for _ in range(rng.choice([1, 2, 3])):
+        ops.append('burst 1 %d' % rng.choice([1024, 1024, 1023, 1020, 1014, 1000, 1030]))
+        for l in range(nl):
+            if rng.random() < 0.8:
+                k = [str(rng.choice([1, 2, 3, 4, 7, 10])) for _ in range(rng.choice([1, 1, 2, 3]))]
+                ops.append('passc %d %s,%s' % (l, ','.join(k), rng.choice('xe')))
+        ops += ['raise 1'] * rng.choice([1, 2, 5, 11])
+        if rng.random() < 0.5:
+            ops.append('burst 1 %d' % rng.choice([3, 10, 24, 1024]))
+        for l in range(nl):
+            r = rng.random()
+            if r < 0.5: ops.append('pass %d' % l)
+            elif r < 0.8: ops.append('passc %d %s' % (l, ','.join(rng.choice(['10', '10', '3', 'x']) for _ in range(rng.choice([2, 5, 40])))))
+    for l in range(nl): ops.append('pass %d' % l)
+    ops += ['burst 1 1025'] + ['pass %d' % l for l in range(nl)] + ['dis %d' % l for l in range(nl)] + ['raise 1']
+    return ops
+
 
 
 def script(rng, self, n, p=0.35):
@@ -215,10 +332,7 @@ def gen_burst(rng, tier):
         for l in order:
             if rng.random() < 0.85:
                 ops.append(rng.choice(['pass %d' % l, 'pass %d' % l, 'passc %d %s' % (l, ','.join(rng.choice(['1', '3', '10', '7', 'x', 'e', '2']) for _ in range(rng.choice([1, 2, 4]))))]))
-                # the kernel model counts the capacity from an EMPTY pipe (it does not track the consumed part of the head page):
-                # after a read error the loop is drained before the next burst
-                if 'x' in ops[-1] or ',e' in ops[-1] or ' e' in ops[-1][6:]:
-                    ops.append('pass %d' % l)
+                # round 5: the model tracks the consumed part of the first page, a read error may leave the loop half drained
         if rng.random() < 0.4:
             ops.append('en %d' % rng.randrange(n))
     for e in range(n):
@@ -287,6 +401,24 @@ def gen_numbers(rng):
 
 
 DIRECTED = [
+    # round 5: SA_RESETHAND|SA_NODEFER|SA_ONSTACK|SA_NOCLDWAIT + a mask with bits 0, 2, 63 on the OLD disposition: chained by every delivery,
+    # restored whole by the last of two loops, then the kernel's own reset on a direct delivery (handler only), then "killed"
+    ['eng e', 'sa 1 a2 46 9223372036854775813', 'new 0 -', 'new 1 -', 'init 0 1 p', 'init 1 1 o', 'en 0', 'raise 1', 'en 1', 'raise 1', 'raise 1', 'pass 0',
+     'pass 1', 'dis 0', 'del 1', 'raise 1', 'raise 1', 'new 0 -', 'init 2 1 p', 'en 2', 'raise 1', 'pass 0', 'dis 2', 'raise 1'],
+    # every flag bit, every mask bit (the kernel drops SIGKILL / SIGSTOP), on a real-time signal and SIGRTMAX
+    ['eng s', 'sa 4 h0 63 18446744073709551615', 'sa 6 a1 21 2147483648', 'sa 5 h2 4 4294967296', 'new 0 -', 'init 0 4,5,6 p', 'en 0', 'raise 4', 'raise 5',
+     'raise 6', 'raise 5', 'pass 0', 'init 0 4 p', 'en 0', 'raise 5', 'raise 5', 'raise 4', 'pass 0', 'del 0', 'raise 4', 'raise 6', 'raise 6'],
+    # the consumed part of the first page (C04_consumed_head_counterexample) and the same after the page is wholly read
+    ['eng e', 'cap s', 'sa 1 h0 0 0', 'new 0 -', 'init 0 1 p', 'en 0', 'burst 1 1024', 'passc 0 10,x', 'raise 1', 'passc 0 4,e', 'raise 1', 'pass 0', 'burst 1 1025', 'pass 0',
+     'burst 1 1000', 'passc 0 10,10,4,x', 'burst 1 30', 'pass 0', 'dis 0'],
+    # lesson (g): enable twice / disable once; same set re-initialised while enabled; the same signal twice in one list; sibling leaves
+    ['eng e', 'sa 1 h1 5 4294967297', 'new 0 -', 'new 0 -', 'init 0 1 p', 'init 1 1 p', 'en 0', 'en 0', 'dis 0', 'raise 1', 'en 0', 'en 1', 'dis 0', 'raise 1', 'pass 0',
+     'init 1 1 p', 'raise 1', 'en 1', 'initd 1 1 p', 'en 1', 'raise 1', 'pass 0', 'initd 0 2 o', 'en 0', 'raise 2', 'raise 2', 'pass 0', 'dis 1', 'raise 1'],
+    ['eng s', 'sa 1 i 0 0', 'new 0 e0,d0,e0', 'new 0 d1,e1,d1', 'init 0 1 o', 'init 1 1 p', 'en 0', 'en 1', 'raise 1', 'pass 0', 'raise 1', 'pass 0', 'en 1', 'raise 1', 'raise 1',
+     'pass 0', 'dis 0', 'dis 1', 'raise 1'],
+    # observation (outside the statement): a loop destroyed with subscribers - the destructor leaves handler, ctx entry and pipe as they are
+    ['eng e', 'sa 1 h0 4 0', 'new 0 -', 'new 1 -', 'init 0 1 p', 'init 1 1 p', 'en 0', 'en 1', 'raise 1', 'pass 0', 'lost 1', 'raise 1', 'pass 0', 'dis 0', 'raisew 1 0', 'burst 1 3', 'lost 0'],
+    ['eng s', 'new 2 -', 'init 0 2 o', 'lost 0', 'raise 2', 'new 0 -'],
     # round 4: one delivery more than a one-page pipe holds, loop not running: the 1025th is dropped (C04_burst_overflow_counterexample);
     # the old handler is still invoked 1025 times; the other loop joins later and gets its own full pipe
     ['eng e', 'cap s', 'sa 1 a1 0 0', 'new 0 -', 'new 1 -', 'init 0 1 p', 'init 1 1 p', 'en 0', 'burst 1 1025', 'en 1', 'burst 1 3', 'pass 0', 'pass 1',
@@ -365,6 +497,12 @@ def gen(rng, tier):
         yield gen_faults(rng)
     for _ in range(n // 8):
         yield gen_numbers(rng)
+    for _ in range(n // 6):
+        yield gen_flags(rng)
+    for _ in range(n // 5):
+        yield gen_state_derived(rng)
+    for _ in range(n // 12):
+        yield gen_head(rng, tier)
 
 
 def fingerprint(ops, d):
@@ -403,13 +541,15 @@ LEVEL_TEXT = ('Lean 4 theorems over a model of the process-wide signal bookkeepi
               'someone is subscribed, saved disposition restored, old handler chained once, no callback on a disabled or destroyed event, every '
               'subscriber called exactly once on its own loop (for every kernel answer to the handler\'s pipe writes: a failed write loses that loop\'s '
               'delivery only), one-shot at most once, termination of the read loop (for every sequence of read() answers without an error); bursts: '
-              'min(n, capacity) numbers pending per subscribed loop (no loss up to the capacity, counterexample beyond); a step-level model of the two '
+              'min(n, capacity) numbers pending per subscribed loop (no loss up to the capacity, counterexample beyond; exact write condition with the consumed '
+              'part of the first page); dispositions with all flag bits and the 64-bit mask: restored whole unless the kernel itself reset an SA_RESETHAND handler on '
+              'a direct delivery, a chained delivery never does, the saved handler runs on every delivery; a step-level model of the two '
               'critical sections (mutex + per-thread signal mask) with the bookkeeping invariant for every interleaving of threads, deliveries and user '
               'sigaction calls; tied to the real code on every run by a trace acceptor (real sigaction/raise, loops on their own threads, both engines, '
               'interposed pipe2/close/sigprocmask/sigaction/write/read, ASan+UBSan build of the working tree)')
 LEVEL_NOTE = ('trusted: Lean kernel, hand-written model + trace-acceptor tie (coverage bounded by the generator, measured), kernel signal semantics; '
               'not covered by the tie: a delivery on another thread while a subscription change is in progress (modelled at step level only; the C++ '
-              'data race on std::map/std::set in that window is outside the statement\'s quantifier), the consumed part of a pipe\'s head page in the '
-              'capacity (bursts near the capacity are generated on drained pipes), destruction of a loop with subscribed events, fork()')
+              'data race on std::map/std::set in that window is outside the statement\'s quantifier), SA_RESTART of the installed disposition (no thread is blocked in a system call when a signal arrives), destruction of a loop with '
+              'subscribed events (observed through `lost`, not modelled: outside the statement), fork()')
 TECHNIQUE = 'Lean 4 invariant proof over all op lists of a signal-bookkeeping model + model/implementation correspondence check'
 DESIGN_REF = 'DESIGN.md §6 C04'
